@@ -137,6 +137,9 @@ func (x *Exec) useLemma(st *State, env *Env, u *Expr, props []string) {
 		x.usedExt["explicit assumption: "+u.Src] = true
 		return
 	}
+	if u.Op == "noop" {
+		return
+	}
 	if u.Op == "universal" {
 		x.useLemmaUniversal(st, env, u, props)
 		return
@@ -266,6 +269,9 @@ func (x *Exec) useLemmaUniversal(st *State, env *Env, u *Expr, props []string) {
 }
 
 func lemmaCallOf(u *Expr) *Expr {
+	if u.Op == "noop" {
+		u = u.Args[0]
+	}
 	if u.Op == "universal" {
 		u = u.Args[0]
 	}
